@@ -36,6 +36,10 @@ class _Bad:
 
 
 BAD = _Bad()
+# a value that passes for a number at first sight (numpy registers timedelta64 as a signed integer, so it is a
+# numbers.Real) but cannot take part in the arithmetic of an aggregator
+BADNUM = np.timedelta64(5, "s")
+BADCOMPLEX = complex(1.0, 2.0)  # a numbers.Number that is not a numbers.Real
 
 
 def _unbox(v):
@@ -66,7 +70,7 @@ def _gate(node, v):
         st.fired.append((node, mode))
         if mode == "raise":
             raise InjectedFault("armed gate at node %d" % node)
-        return BAD
+        return BADNUM if mode == "badnum" else BADCOMPLEX if mode == "badcomplex" else BAD
     return _unbox(v)
 
 
@@ -78,7 +82,7 @@ def _gate2(node, a, b):
         st.fired.append((node, mode))
         if mode == "raise":
             raise InjectedFault("armed gate at node %d" % node)
-        return BAD
+        return BADNUM if mode == "badnum" else BADCOMPLEX if mode == "badcomplex" else BAD
     a = _unbox(a)
     b = _unbox(b)
     if isinstance(a, np.ndarray):
@@ -94,7 +98,7 @@ def _gate3(node, a, b, c):
         st.fired.append((node, mode))
         if mode == "raise":
             raise InjectedFault("armed gate at node %d" % node)
-        return BAD
+        return BADNUM if mode == "badnum" else BADCOMPLEX if mode == "badcomplex" else BAD
     a, b, c = _unbox(a), _unbox(b), _unbox(c)
     if isinstance(a, np.ndarray):
         return np.stack([a, b, c], axis=1)
